@@ -437,7 +437,16 @@ func TestPropParallelism(t *testing.T) {
 		if c.N >= 2000 {
 			cl = append(cl, "n>=2000_many_batches_or_chunks")
 		}
-		evid.Eval("parallelism", evid.Hash(fmt.Sprintf("%+v", c)), nontrivial, c, cl...)
+		_ = nontrivial
+		for i, cfg := range c.Configs {
+			// one evaluation per compared run (baseline vs this configuration)
+			nt := cfg.MaxCPU != 1 && cfg.Procs != 1 && cfg.Batch > 0 && cfg.Batch < c.N
+			var sample any
+			if i == 0 {
+				sample = c
+			}
+			evid.Eval("parallelism", evid.Hash(fmt.Sprintf("%+v|%+v", c, cfg)), nt, sample, cl...)
+		}
 		if err := checkCase(c); err != nil {
 			evid.Fail(rt, "parallelism", c, err)
 		}
